@@ -435,6 +435,18 @@ def is_not_on_book(f, ns, key, ver=0):
     """decisive fact of 'unknown id': load failed, or may_load returned None (or failed)"""
     return f in (('is', ('sload', ns, key, 'load', ver), 'Err'), ('is', ('mayload_opt', ns, key, ver), 'None'), ('is', ('sload', ns, key, 'may_load', ver), 'Err'))
 
+def id_not_canonical_fact(f, idt):
+    """decisive fact of 'id is not a canonical hyphenated UUID': parse failure, or parsed but different from its hyphenated rendering
+    (as two plain facts, or as the OR-fact of a merged boolean helper)"""
+    if f is None: return False
+    up = ('uuid_parse', idt)
+    def plain(x):
+        if x == ('is', up, 'Err'): return True
+        return x[0] == 'val' and x[2] is False and x[1][0] == 'eq' and idt in x[1][1:] and 'hyphenated' in repr(x[1])
+    if f[0] == 'or':
+        return all(any(plain(x) for x in alt) for alt in f[1])
+    return plain(f)
+
 def nget(t, steps):
     """read a path of ('f', name) / ('v', Variant, name) steps from a normalised term, looking through `with` updates"""
     for st in steps:
